@@ -39,7 +39,7 @@ class XEv(conc.Ev):
             setattr(self, n, kw.get(n, getattr(e, n)))
 
 
-def coq_conform_big(name, traces, seg=1200, per_file=45000):
+def coq_conform_big(name, traces, seg=1200, per_file=45000):  # noqa
     """like conc.coq_conform, for long traces: every trace is written as a concatenation of short list literals (one
     huge literal overflows coqc's stack); returns [(rejected_index, ended_idle)] in order"""
     out, batch, nev = [], [], 0
@@ -73,7 +73,7 @@ def coq_conform_big(name, traces, seg=1200, per_file=45000):
     return out
 
 
-def overtake(exe, seed):
+def overtake(exe, seed, tag="c05s"):
     """the fixed overtake schedule (harness mix 10): API oracle + the whole run, globally ordered, replayed through the
     model in Coq (SyncOrder.xreplay) with the tail-tested fast path (tstep) and with the old one (tstep_old)"""
     text, rc = run_harness(exe, seed, 0, 0, 0, 0, 10)
@@ -87,7 +87,7 @@ def overtake(exe, seed):
             for tok in l.split()[1:]:
                 k, _, v = tok.partition("=")
                 info[k] = int(v)
-    evs = sorted((e for (_, tr, _) in traces for e in tr), key=lambda e: e.seq)
+    evs = sorted((e for (_, tr, _) in traces for e in tr), key=lambda e: e.seq)[:4000]   # a prefix is replayed when the run is long
     ths = sorted({e.tid & 0x3fffffff for e in evs})
     body, parts = [], []
     for j in range(0, max(len(evs), 1), 400):
@@ -98,7 +98,7 @@ def overtake(exe, seed):
     for ts in ("tstep", "tstep_old"):
         body.append("Eval vm_compute in (let '(i, okb) := xreplay %s %s (init_state, h0) g 0 true in [i; if okb then 1 else 0])."
                     % (ts, driver.zlist(ths)))
-    ok, vals, raw = driver.coq_eval("c05s_overtake_%d" % seed, IMPORTS, "\n".join(body) + "\n", timeout=900)
+    ok, vals, raw = driver.coq_eval("%s_overtake_%d" % (tag, seed), IMPORTS, "\n".join(body) + "\n", timeout=900)
     if not ok or len(vals) != 2:
         raise RuntimeError("coq replay of the overtake schedule failed: " + raw[-2000:])
     new, old = driver.ints(vals[0]), driver.ints(vals[1])
@@ -227,9 +227,16 @@ PLANS = {   # (calls, permille, clients, feeders, mix)
 }
 
 
-def correspond(ctx):
+# the order part registered under C02 (lib/props/c02_sync.py): fewer stress runs, same oracle, the overtake schedule
+ORDER_PLANS = {
+    "quick": [(40, 150, 4, 1, 0), (60, 100, 3, 0, 1), (40, 300, 5, 1, 0)],
+    "thorough": [(150, 150, 4, 1, 0), (200, 100, 3, 0, 1), (150, 300, 5, 1, 0), (150, 0, 6, 2, 2), (150, 400, 8, 1, 3), (200, 50, 2, 0, 0)],
+}
+
+
+def correspond(ctx, tag="c05s", plans=None, retarget=True):
     exe = build()
-    plan = PLANS["quick" if ctx.tier == "quick" else "thorough"]
+    plan = (plans or PLANS)["quick" if ctx.tier == "quick" else "thorough"]
     fails, mism, alltr, dist, shapes = [], [], [], {}, set()
     nitems = 0
     for i, (calls, pm, ncl, nfd, mix) in enumerate(plan):
@@ -246,7 +253,7 @@ def correspond(ctx):
         branch_stats(tr, dist)
         alltr += [(sv, t, thr, label) for (sv, t, thr) in tr]
     # oracle-only scenario: synchronous calls through a retargeted queue never overlap items of its serial target
-    for j in range(2 if ctx.tier == "quick" else 6):
+    for j in range((2 if ctx.tier == "quick" else 6) if retarget else 0):
         seed = ctx.seed * 1000 + 500 + j
         text, rc = run_harness(exe, seed, 150, [0, 200][j % 2], 0, 0, 9)
         f, _, st = analyse(text, "retarget/seed%d" % seed)
@@ -258,7 +265,7 @@ def correspond(ctx):
     # the fixed overtake schedule: API oracle, per-thread conformance and whole-run replay
     reached = 0
     for j in range(3 if ctx.tier == "quick" else 6):
-        f, m, tr, st, info, nge, label = overtake(exe, ctx.seed * 1000 + 700 + j)
+        f, m, tr, st, info, nge, label = overtake(exe, ctx.seed * 1000 + 700 + j, tag)
         fails += f
         mism += m
         nitems += st.get("items", 0)
@@ -272,7 +279,7 @@ def correspond(ctx):
     if not reached:
         mism.append({"what": "the overtake schedule was never reached (the holds in the hook did not produce the idle word with "
                              "queued items): the scenario no longer exercises the tail test", "detail": {}})
-    res = coq_conform_big("c05s_conf", [(sv, t) for (sv, t, _, _) in alltr])
+    res = coq_conform_big(tag + "_conf", [(sv, t) for (sv, t, _, _) in alltr])
     nev = 0
     for (i, idle), (sv, t, thr, label) in zip(res, alltr):
         nev += len(t)
